@@ -26,6 +26,7 @@ func init() {
 			"the run edited in place is private to the request: the client hands out the Status of the store's FindByRequestID record, and every store implementation fills that record from a parse made for the call, not from the shared status cache (C20.edit-on-private-copy)",
 			"the status the guards test is the live agent's answer whenever the run's process is alive, and that answer is always `running` - also while handlers run or the run winds down after a stop (C08.live-is-running, shared)",
 			"an unknown action performs no client call other than the status read (C20.unknown-action); start parameters pass through unchanged (C11.param-flow shared)",
+			"every way to HistoryStore.Update in the client's UpdateStatus knows that the request on the run's socket was answered (error nil) or failed with something other than the timeout sentinel (C20.update-refuses-on-timeout)",
 		},
 		NotDec: []string{"sequences of actions over recorded runs", "escaping of \\n / \\r in parameters on the way to the child process", "client.UpdateStatus's own live-run check (request-id equality)"},
 	})
@@ -80,6 +81,7 @@ func runC20(e *Env) {
 	c11ParamFlow(e)                              // "a start passes the given parameters through unchanged"
 	c08Latest(e)                                 // the guards read GetStatus -> GetLatestStatus: the live answer first
 	cCorrectTable(e, "C20.correction-footprint") // the edit persists the object the view-level correction touched
+	c20UpdateRefusesOnTimeout(e, "C20.update-refuses-on-timeout")
 	fp := e.P.Pkg(feDagRel)
 	if fp == nil {
 		r.Unknown("API handler package", feDagRel, "not loaded")
